@@ -162,7 +162,7 @@ def rule_g1(ctx: Ctx) -> None:
             raise AnalysisError(f"{f.where}: expected exactly one call of {hname}, found {len(calls)}")
         call, guards, under = calls[0]
         if under != want_flag:
-            ctx.violation("C12-G1", f, call, f"{hname} ({what}) is reached when inverse={under}; forward and inverse helpers are swapped")
+            ctx.violation("C12-G1", f, call, f"{hname} ({what}) is reached when inverse={under}; forward and inverse helpers are swapped", robust=True)
             continue
         # guards relevant to this call: `if perm.contains(P): raise`
         found = None
@@ -177,18 +177,18 @@ def rule_g1(ctx: Ctx) -> None:
             elif isinstance(t, ast.UnaryOp) and isinstance(t.op, ast.Not) and isinstance(t.operand, ast.Call) and call_name(t.operand) == (perm, "contains"):
                 found = (g, perm_literal_name(t.operand.args[0]) if t.operand.args else None, True)
         if found is None:
-            ctx.violation("C12-G1", f, call, f"{hname} is called without a dominating domain check: inputs outside {what.split('(')[1].split(' ')[0]} are not rejected")
+            ctx.violation("C12-G1", f, call, f"{hname} is called without a dominating domain check: inputs outside {what.split('(')[1].split(' ')[0]} are not rejected", robust=True)
             continue
         g, lit, inverted = found
         if inverted:
-            ctx.violation("C12-G1", f, g, f"domain guard before {hname} is inverted: it rejects the permutations *inside* the domain")
+            ctx.violation("C12-G1", f, g, f"domain guard before {hname} is inverted: it rejects the permutations *inside* the domain", robust=True)
             continue
         if lit != patt:
-            ctx.violation("C12-G1", f, g, f"the guard before {hname} tests pattern {lit}; the domain of the {what} is Av({patt})")
+            ctx.violation("C12-G1", f, g, f"the guard before {hname} tests pattern {lit}; the domain of the {what} is Av({patt})", robust=True)
             continue
         msg = "".join(str(c.value) for c in ast.walk(g.body[0]) if isinstance(c, ast.Constant) and isinstance(c.value, str))
         if patt not in msg:
-            ctx.violation("C12-G1", f, g, f"guard tests {patt} but its error message says {msg!r}: the two stated beliefs contradict each other")
+            ctx.violation("C12-G1", f, g, f"guard tests {patt} but its error message says {msg!r}: the two stated beliefs contradict each other", robust=True)
             continue
         ctx.ok("C12-G1", f.where, f"{hname} is dominated by `if {perm}.contains({patt}): raise` (message agrees)", g, f)
     # who may call the helpers
@@ -203,7 +203,7 @@ def rule_g1(ctx: Ctx) -> None:
         others = [c for c in callers if c is not f]
         if others:
             for c in others:
-                ctx.violation("C12-G1", c, c.node, f"{helper.name} is called from {c.qual}, bypassing the domain check of simion_and_schmidt")
+                ctx.violation("C12-G1", c, c.node, f"{helper.name} is called from {c.qual}, bypassing the domain check of simion_and_schmidt", robust=True)
         else:
             ctx.ok("C12-G1", helper.where, "only caller is the guarded public entry point", helper.node, helper)
     # empty permutation shortcut returns the empty permutation
